@@ -333,7 +333,10 @@ let run_monitor infile outfile =
      with Exit -> ());
     (match !fail with
      | Some f -> Printf.fprintf oc "S %s UNSAFE %s\n" !cur_k f
-     | None -> Printf.fprintf oc "S %s SAFE events=%d\n" !cur_k !idx) in
+     | None ->
+       let conf = List.length (List.filter (fun (_, p) -> let i = int_of_nat p in i = 98 || i = 99) !committed) in
+       Printf.fprintf oc "S %s SAFE events=%d leaders=%d committed=%d confcommitted=%d\n" !cur_k !idx
+         (Hashtbl.length leaders) (List.length !committed) conf) in
   List.iter (fun l ->
       match split_ws l with
       | ["SCHEDULE"; k] -> cur_k := k; groups := []; cur := None
